@@ -181,6 +181,12 @@ func (c *LRUCache) Set(key string, value interface{}, ttl time.Duration) error {
 	// Calculate entry size (rough estimate)
 	size := estimateSize(value)
 
+	// A value that can never fit is refused up front: evicting for it would
+	// empty the cache and still not make room.
+	if err := c.checkFits(size); err != nil {
+		return err
+	}
+
 	var expiresAt time.Time
 	if ttl > 0 {
 		expiresAt = time.Now().Add(ttl)
@@ -202,12 +208,13 @@ func (c *LRUCache) Set(key string, value interface{}, ttl time.Duration) error {
 		c.currentSize -= oldEntry.Size
 		c.currentSize += size
 		elem.Value = entry
+		c.evictOverSize()
 		atomic.AddUint64(&c.stats.Sets, 1)
 		return nil
 	}
 
 	// Evict if necessary
-	for c.evictList.Len() >= c.capacity || (c.maxSize > 0 && c.currentSize+size > c.maxSize) {
+	for c.evictList.Len() > 0 && (c.evictList.Len() >= c.capacity || (c.maxSize > 0 && c.currentSize+size > c.maxSize)) {
 		c.evictOldest()
 	}
 
@@ -232,6 +239,10 @@ func (c *LRUCache) SetWithTags(key string, value interface{}, ttl time.Duration,
 
 	size := estimateSize(value)
 
+	if err := c.checkFits(size); err != nil {
+		return err
+	}
+
 	var expiresAt time.Time
 	if ttl > 0 {
 		expiresAt = time.Now().Add(ttl)
@@ -253,10 +264,11 @@ func (c *LRUCache) SetWithTags(key string, value interface{}, ttl time.Duration,
 		c.currentSize -= oldEntry.Size
 		c.currentSize += size
 		elem.Value = entry
+		c.evictOverSize()
 		return nil
 	}
 
-	for c.evictList.Len() >= c.capacity || (c.maxSize > 0 && c.currentSize+size > c.maxSize) {
+	for c.evictList.Len() > 0 && (c.evictList.Len() >= c.capacity || (c.maxSize > 0 && c.currentSize+size > c.maxSize)) {
 		c.evictOldest()
 	}
 
@@ -339,6 +351,27 @@ func (c *LRUCache) Stats() Stats {
 		Size:       c.currentSize,
 		MaxSize:    c.maxSize,
 		EntryCount: int64(c.evictList.Len()),
+	}
+}
+
+// checkFits reports whether a value of the given size can be stored at all
+// under the configured limits.
+func (c *LRUCache) checkFits(size int64) error {
+	if c.capacity <= 0 {
+		return fmt.Errorf("cache: capacity is %d, nothing can be stored", c.capacity)
+	}
+	if c.maxSize > 0 && size > c.maxSize {
+		return fmt.Errorf("cache: value of %d bytes exceeds the maximum size of %d bytes", size, c.maxSize)
+	}
+	return nil
+}
+
+// evictOverSize evicts least recently used entries after an in-place update
+// grew an entry, until the byte limit holds again. The updated entry sits at
+// the front of the list, so it is never the one evicted.
+func (c *LRUCache) evictOverSize() {
+	for c.maxSize > 0 && c.currentSize > c.maxSize && c.evictList.Len() > 1 {
+		c.evictOldest()
 	}
 }
 
